@@ -110,6 +110,7 @@ PROPS = {
         "oracle": "token game of the requested chain over the recorded history + structural and geometric checks of the builder output",
     },
     "C16": {
+        "race": True, "race_clause": "C16/data-race",
         "level_text": 'isolation between concurrently running instances and absence of panics in engine goroutines are decided by seeded simulation of 1..3 instances with generated values under tape-driven interleavings; the canonical-form reference the read-back values are compared with is sequential code (DESIGN.md section 6)',
         "level_note": 'sampling, not proof; values outside the statement (unsigned > MaxInt64, NaN/Inf, []byte) are not generated; for nil and for declared types that do not match the supplied value only the absence of a panic is required',
         "level": "exploration", "quick_s": 30, "thorough_s": 600, "thorough_seeds": 4,
